@@ -848,6 +848,31 @@ func wlOpts(seed int64) {
 	}
 }
 
+// raceT is the test the workloads run in (the WebSocket pair helper reports through it)
+var raceT *testing.T
+
+// client and server over the shipped WebSocket transport (coder/websocket on an in-memory byte stream): the client
+// multiplexer calls Write of the ONE goatOverWebsocket connection from a goroutine per unary call / stream, the
+// server's writer and handlers write the other one: whatever per-connection state Write keeps is shared by them
+func wlWs(seed int64) {
+	p := newTrWsPair(raceT, -1)
+	p.cc.SetReadLimit(-1)
+	srv := newEchoServer("dst", raceEcho())
+	sctx, scancel := context.WithCancel(context.Background())
+	served := make(chan struct{})
+	go func() { srv.Serve(sctx, goat.NewGoatOverWebsocket(p.sc)); close(served) }()
+	cc := goat.NewClientConn(goat.NewGoatOverWebsocket(p.cc), "src", "dst")
+	var wg sync.WaitGroup
+	raceTrafficT(cc, 8, 6, &wg, 2*time.Second, 3*time.Second)
+	raceBurst(cc, 24, 2*time.Second, &wg)
+	wg.Wait()
+	scancel()
+	srv.Stop()
+	cc.Close()
+	<-served
+	p.close()
+}
+
 func raceWorkloads() []raceWorkload {
 	return []raceWorkload{
 		{"mux", wlMux(false)},
@@ -857,6 +882,7 @@ func raceWorkloads() []raceWorkload {
 		{"demux", wlDemux},
 		{"http", wlHttp},
 		{"opts", wlOpts},
+		{"ws", wlWs},
 	}
 }
 
@@ -866,6 +892,7 @@ func TestC15Workload(t *testing.T) {
 		t.Skip("run by TestC15Race in the race binary")
 	}
 	seed := *flagSeed
+	raceT = t
 	var ctr atomic.Uint64
 	ctr.Store(uint64(seed) * 2654435761)
 	verifhook.SetYield(func(string) {
